@@ -29,7 +29,7 @@ func init() {
 		runHistories(r, profile{Hostile: 70, Faults: 3, Attack: 8, Logout: 3, Ticks: 18, Histories: scale(r, 60, 1500), Length: 45}, histRule)
 	}
 	checks["C05"] = func(r *Run) {
-		runHistories(r, profile{Hostile: 15, Faults: 8, Attack: 30, Logout: 12, Ticks: 10, OddRequest: true, Histories: scale(r, 60, 1500), Length: 45}, histRule)
+		runHistories(r, profile{Hostile: 15, Faults: 8, Attack: 30, Logout: 12, Ticks: 10, OddRequest: true, OddConfig: true, Histories: scale(r, 60, 1500), Length: 45}, histRule)
 	}
 	checks["C11"] = func(r *Run) {
 		runHistories(r, profile{Hostile: 30, Faults: 6, Attack: 3, Logout: 2, Ticks: 40, Histories: scale(r, 60, 1500), Length: 60}, histRule)
